@@ -14,6 +14,17 @@
 
    While the exception propagates (x_err a = Some applied) the actor still holds the lock; XUnwind is commit()'s
    `finally` (lock release) together with the transaction's except-arm.
+
+   The store's REFUSAL of a write it has APPLIED (XFlipResent): the SDK re-sends a PutObject whose response was lost
+   (botocore's default retry policy), and the re-sent copy of the conditional request is refused because the first copy
+   landed -- the client sees 412/409 for its own successful write.  What the commit point does about a refusal is again
+   regenerated: gen_refused_reads_back (is the pointer read back before the refusal is called a conflict?) and
+   gen_write_landed (the verdict of _hint_write_landed: the pointer's content is exactly OUR file name).  XReadBack is that
+   read, a step of its own: another committer may have validated our landed version and replaced the pointer between the
+   landing and the read-back, and then the verdict is "not landed".  Without a read-back, or with that verdict, the applied
+   write is reported as the retryable conflict: the committer goes to PConflict with its flip in the history (x_misreported)
+   -- commit() discards the metadata file and the transaction commits the operation again.
+   `prompt = true` is the machine in which no pointer write lands while a read-back is pending (x_npending > 0).
    Definitions only; proofs in Proofs/FlipFaultProofs.v. *)
 From Coq Require Import ZArith List Bool Arith.
 Require Import DS.Model.CommitBase DS.Gen.GenCommit DS.Model.Commit.
@@ -36,12 +47,17 @@ Record xworld := {
   xw : world;
   x_err : aid -> option bool;     (* Some applied: the actor's commit-point write raised (and was / was not applied by the
                                      store); the exception is propagating, the lock is not released yet *)
-  x_failed : list aid }.          (* ghost: every actor whose commit-point write has raised such an error *)
+  x_failed : list aid;            (* ghost: every actor whose commit-point write has raised such an error *)
+  x_rb : aid -> bool;             (* the actor's write was applied and then REFUSED to its face; the read-back is pending *)
+  x_npending : nat;               (* number of pending read-backs *)
+  x_misreported : list aid }.     (* ghost: actors whose APPLIED write was reported to them as the retryable conflict *)
 
 Inductive xevent :=
 | XE (e : event)                          (* a step of the commit machine *)
 | XFlipErr (a : aid) (applied : bool)     (* a's commit-point write raises an error that is not the store's refusal *)
-| XUnwind (a : aid).                      (* the exception leaves commit() (finally: release) and reaches the transaction *)
+| XUnwind (a : aid)                       (* the exception leaves commit() (finally: release) and reaches the transaction *)
+| XFlipResent (a : aid)                   (* a's commit-point write is applied; the re-sent copy of the request is refused *)
+| XReadBack (a : aid).                    (* what the commit point does about that refusal (pointer read-back, if the source has one) *)
 
 Definition ev (a : aid) (k : evkind) : event := {| e_actor := a; e_kind := k |}.
 
@@ -50,30 +66,46 @@ Definition is_last (s : astate) : bool := negb (Nat.ltb (S (a_attempt s)) (a_max
 Definition set_err (a : aid) (v : option bool) (f : aid -> option bool) : aid -> option bool :=
   fun b => if Nat.eqb b a then v else f b.
 
-Definition xstep (c : cfg) (atomic : bool) (X : xworld) (x : xevent) : option xworld :=
+Definition set_rb (a : aid) (v : bool) (f : aid -> bool) : aid -> bool :=
+  fun b => if Nat.eqb b a then v else f b.
+
+(* what the read-back sees, in terms of the machine: does the pointer name a's file? *)
+Definition names_ours (w : world) (s : astate) : bool := Nat.eqb (w_ptr w) (a_new s).
+
+(* prompt machine: no pointer write lands while somebody's read-back is pending *)
+Definition may_land (prompt : bool) (X : xworld) : bool := negb prompt || Nat.eqb (x_npending X) 0.
+
+Definition is_flip_true (k : evkind) : bool := match k with EFlip true => true | _ => false end.
+
+Definition xstep_p (prompt : bool) (c : cfg) (atomic : bool) (X : xworld) (x : xevent) : option xworld :=
   match x with
   | XE e =>
-    match x_err X (e_actor e) with
-    | Some _ => None                (* an actor whose exception is propagating does nothing else *)
-    | None =>
-      match step c (xw X) e with
-      | Some w' => Some {| xw := w'; x_err := x_err X; x_failed := x_failed X |}
-      | None => None
-      end
+    match x_err X (e_actor e), x_rb X (e_actor e) with
+    | None, false =>
+      if negb (is_flip_true (e_kind e)) || may_land prompt X then
+        match step c (xw X) e with
+        | Some w' => Some {| xw := w'; x_err := x_err X; x_failed := x_failed X; x_rb := x_rb X; x_npending := x_npending X;
+                             x_misreported := x_misreported X |}
+        | None => None
+        end
+      else None
+    | _, _ => None                  (* an actor whose exception is propagating / whose read-back is pending does nothing else *)
     end
   | XFlipErr a applied =>
-    match x_err X a, a_pc (w_actors (xw X) a) with
-    | None, PFenced =>
+    match x_err X a, x_rb X a, a_pc (w_actors (xw X) a) with
+    | None, false, PFenced =>
       if applied then
-        if negb (cas c) && atomic then None     (* atomic_write_failures: a write that raises did not happen *)
+        if (negb (cas c) && atomic) || negb (may_land prompt X) then None   (* atomic_write_failures: a write that raises did not happen *)
         else
           (* the store applied the request: exactly the effect (and the precondition) of a successful flip *)
           match step c (xw X) (ev a (EFlip true)) with
-          | Some w' => Some {| xw := w'; x_err := set_err a (Some true) (x_err X); x_failed := a :: x_failed X |}
+          | Some w' => Some {| xw := w'; x_err := set_err a (Some true) (x_err X); x_failed := a :: x_failed X;
+                               x_rb := x_rb X; x_npending := x_npending X; x_misreported := x_misreported X |}
           | None => None
           end
-      else Some {| xw := xw X; x_err := set_err a (Some false) (x_err X); x_failed := a :: x_failed X |}
-    | _, _ => None
+      else Some {| xw := xw X; x_err := set_err a (Some false) (x_err X); x_failed := a :: x_failed X;
+                   x_rb := x_rb X; x_npending := x_npending X; x_misreported := x_misreported X |}
+    | _, _, _ => None
     end
   | XUnwind a =>
     match x_err X a with
@@ -86,23 +118,60 @@ Definition xstep (c : cfg) (atomic : bool) (X : xworld) (x : xevent) : option xw
         | RRetry => step c (with_actor (xw X) a (set_pc s PConflict)) (ev a ERelease)   (* handled like a refusal *)
         end in
       match w1 with
-      | Some w' => Some {| xw := w'; x_err := set_err a None (x_err X); x_failed := x_failed X |}
+      | Some w' => Some {| xw := w'; x_err := set_err a None (x_err X); x_failed := x_failed X;
+                           x_rb := x_rb X; x_npending := x_npending X; x_misreported := x_misreported X |}
       | None => None
       end
     end
+  | XFlipResent a =>
+    match x_err X a, x_rb X a, a_pc (w_actors (xw X) a) with
+    | None, false, PFenced =>
+      if cas c && may_land prompt X then
+        match step c (xw X) (ev a (EFlip true)) with
+        | Some w' => Some {| xw := w'; x_err := x_err X; x_failed := x_failed X; x_rb := set_rb a true (x_rb X);
+                             x_npending := S (x_npending X); x_misreported := x_misreported X |}
+        | None => None
+        end
+      else None                               (* no conditional request: nothing the store could refuse *)
+    | _, _, _ => None
+    end
+  | XReadBack a =>
+    let s := w_actors (xw X) a in
+    if x_rb X a then
+      if gen_refused_reads_back && gen_write_landed (names_ours (xw X) s) then
+        (* the commit point was passed: _write_hint_at_commit_point returns normally *)
+        Some {| xw := xw X; x_err := x_err X; x_failed := x_failed X; x_rb := set_rb a false (x_rb X);
+                x_npending := pred (x_npending X); x_misreported := x_misreported X |}
+      else
+        (* reported as ConcurrentModificationException although applied *)
+        Some {| xw := with_actor (xw X) a (set_pc s PConflict); x_err := x_err X; x_failed := x_failed X;
+                x_rb := set_rb a false (x_rb X); x_npending := pred (x_npending X); x_misreported := a :: x_misreported X |}
+    else None
   end.
+
+(* the machine of every schedule *)
+Definition xstep := xstep_p false.
 
 Definition xstep_skip (c : cfg) (atomic : bool) (X : xworld) (x : xevent) : xworld :=
   match xstep c atomic X x with Some X' => X' | None => X end.
 Definition xrun (c : cfg) (atomic : bool) (X : xworld) (xs : list xevent) : xworld := fold_left (xstep_skip c atomic) xs X.
 
-Fixpoint xrun_strict (c : cfg) (atomic : bool) (X : xworld) (xs : list xevent) (i : nat) : xworld + nat :=
+Fixpoint xrun_strict_p (prompt : bool) (c : cfg) (atomic : bool) (X : xworld) (xs : list xevent) (i : nat) : xworld + nat :=
   match xs with
   | [] => inl X
-  | x :: xs' => match xstep c atomic X x with Some X' => xrun_strict c atomic X' xs' (S i) | None => inr i end
+  | x :: xs' => match xstep_p prompt c atomic X x with Some X' => xrun_strict_p prompt c atomic X' xs' (S i) | None => inr i end
   end.
+Definition xrun_strict := xrun_strict_p false.
 
-Definition xinit (w : world) : xworld := {| xw := w; x_err := fun _ => None; x_failed := [] |}.
+Definition xinit (w : world) : xworld :=
+  {| xw := w; x_err := fun _ => None; x_failed := []; x_rb := fun _ => false; x_npending := 0; x_misreported := [] |}.
+
+(* ... and the prompt one *)
+Definition xstep_skip_p (prompt : bool) (c : cfg) (atomic : bool) (X : xworld) (x : xevent) : xworld :=
+  match xstep_p prompt c atomic X x with Some X' => X' | None => X end.
+Definition xrun_p (prompt : bool) (c : cfg) (atomic : bool) (X : xworld) (xs : list xevent) : xworld :=
+  fold_left (xstep_skip_p prompt c atomic) xs X.
 
 (* observable summary for the correspondence harness: the commit machine's summary + who failed at the commit point *)
 Definition xsummary (X : xworld) (n : nat) := (summary (xw X) n, rev (x_failed X)).
+Definition xsummary2 (X : xworld) (n : nat) := (summary (xw X) n, rev (x_failed X), rev (x_misreported X)).
